@@ -6,11 +6,13 @@ open Erbium Util
 
 structure Script where
   drop : Nat := 0
+  delay : Nat := 0
   big : Bool := false
 
 def parseScript (s : String) : Script :=
   (s.splitOn "-").foldl (fun acc part =>
     if part.startsWith "x" then { acc with drop := ((part.drop 1).toString.toNat?).getD 0 }
+    else if part.startsWith "d" && part != "dup" then { acc with delay := ((part.drop 1).toString.toNat?).getD 0 }
     else if part == "big" then { acc with big := true } else acc) {}
 
 /-- the longest a SERVFAIL for a silent upstream may take: the proved bound on the waits plus scheduling slack -/
@@ -38,7 +40,11 @@ def judgeOne (spec obs : String) : List String :=
          (if rcode != "2" then [s!"unsat:C07.servfail_when_silent:rcode-{rcode}"] else []) ++
          (if ms > silentBoundMs then ["unsat:C07.servfail_when_silent:later-than-the-bound"] else [])
        else
-         (if rcode != "0" || own != "own" then [s!"unsat:C07.own_answer:answer-missing-{cls}-rcode-{rcode}"] else [])) ++
+         (if rcode != "0" || own != "own" then [s!"unsat:C07.own_answer:answer-missing-{cls}-rcode-{rcode}"] else []) ++
+         -- an answer that needs `drop` retransmissions arrives once they have gone out: within the proved worst case of
+         -- `drop` waits (plus the scripted delay and scheduling slack)
+         (if udp && sc.drop ≥ 1 && ms > DnsMux.worst sc.drop Generated.Dns.maxDnsTimeoutMs + sc.delay + 1500
+          then [s!"unsat:C07.retransmission_within_bound:after-{sc.drop}-lost"] else [])) ++
       (if len > limit then [s!"unsat:C04.size_limit:e2e-{if udp then "udp" else "tcp"}"] else []) ++
       (if !silent && sc.big then
          -- 60 answers are 1001 octets: complete over TCP and with a large enough EDNS size, truncated (flagged) otherwise
@@ -52,7 +58,7 @@ def judgeOne (spec obs : String) : List String :=
 def judge (inp obs : List String) : Verdict :=
   match kv inp "q", obs with
   | some q, [o] =>
-    let specs := q.splitOn ","
+    let specs := q.splitOn "," ++ (match kv inp "then" with | some t => t.splitOn "," | none => [])
     let os := o.splitOn ","
     if specs.length != os.length then badInput "e2e-length" else
     let bad := ((specs.zip os).flatMap fun (s, o) => judgeOne s o).eraseDups
